@@ -1,5 +1,6 @@
 CONSTANTS FlawShallowListFreeze = FALSE
  FlawSharedConstants = FALSE
+ FlawSharedLiterals = FALSE
  FlawInPlaceSort = FALSE
  FlawAppendSharesCapacity = FALSE
  FlawSortedAliasesOrdered = TRUE
